@@ -291,6 +291,41 @@ def obligations(tier, seed):
         return [" ORG %s" % t1, "A NOP", " LDA #1", " ORG %s" % t2, "B NOP", " RTS"]
     obs.append(make_d("later-org", later_org, _later_org, "ORG o1 / NOP / LDA #1 / ORG o2 / NOP / RTS"))
 
+    def double_org(ctx):
+        t1, o1 = ctx.lit("H4", "o1")
+        t2, o2 = ctx.lit("H4", "o2")
+        ctx.assume(o2 <= 60000)
+        return [" ORG %s" % t1, " NAM PROG", "K EQU 5", " SETDP 0", " ORG %s" % t2, "A LDA #K", "B JMP A", " RTS"]
+    obs.append(make_d("double-org-no-code", double_org, lambda ctx, out: out.kind == "ok" and _later_org(ctx, out),
+                      "ORG o1 / NAM, EQU, SETDP only / ORG o2 / code: laid out and reported at o2"))
+
+    def directive_case(text, cls):
+        def lines_fn(ctx):
+            t, v = ctx.lit(cls, "v")
+            return ["D " + text.replace("{v}", t), "E NOP"]
+
+        def expect(ctx, out):
+            if out.kind != "ok":
+                return True
+            st = out.program.statements[0]
+            from vlib.harness import stmt_bytes
+            try:
+                b = stmt_bytes(st)
+            except Exception:  # noqa: BLE001
+                return True                      # C13's subject
+            return len(b) == st.code_pkg.size and st.code_pkg.size <= st.code_pkg.max_size \
+                and out.program.statements[1].code_pkg.address.int == len(b)
+        return make_d("directive:%s:%s" % (text.split()[0] + str(len(text)), cls), lines_fn, expect, text)
+    for text, cls in [("FDB {v}", "H4"), ("FDB {v}", "D3"), ("FCB {v}", "D2"), ("FCB {v},1", "D2"), ("FDB {v},2,3", "D5"), ("FDB 1,{v}", "H4"),
+                      ("FCB 1,2,3,{v}", "H2"), ("FDB $1234", "D1"), ("FCB $12", "D1"), ('FCC "HELLO"', "D1"), ("FCC /A/", "D1")]:
+        if "{v}" not in text:
+            text2 = text
+            obs.append(make_d("directive:%s" % text2.replace(" ", "_"), (lambda tt: (lambda ctx: ["D " + tt, "E NOP"]))(text2),
+                              (lambda ctx, out: out.kind != "ok" or (out.program.statements[0].code_pkg.size <= out.program.statements[0].code_pkg.max_size
+                                                                     and out.program.statements[1].code_pkg.address.int == out.program.statements[0].code_pkg.size)), text2))
+        else:
+            obs.append(directive_case(text, cls))
+
     def code_before_org(ctx):
         t2, o2 = ctx.lit("H4", "o2")
         ctx.assume(o2 <= 60000)
